@@ -2460,7 +2460,17 @@ class Trimesh(Geometry3D):
 
         # check to see if the matrix has rotation
         # rather than just translation
-        has_rotation = not util.allclose(matrix[:3, :3], _IDENTITY3, atol=1e-6)
+        has_rotation = not np.array_equal(matrix[:3, :3], _IDENTITY3)
+        # stored normals can only be carried across the transform if it
+        # preserves angles, i.e. is a rotation/reflection with uniform scale
+        gram = np.dot(matrix[:3, :3], matrix[:3, :3].T)
+        conformal = bool(
+            np.abs(gram - _IDENTITY3 * gram[0, 0]).max() <= 1e-10 * np.abs(gram).max()
+        )
+        if has_rotation and not conformal:
+            # let normals be recomputed from the transformed triangles
+            self._cache.delete("face_normals")
+            self._cache.delete("vertex_normals")
 
         # transform overridden center of mass
         if "center_mass" in self._data:
